@@ -38,6 +38,10 @@ CHECKS["C18"] = ("runtime monitor: fresh process per configuration on a probe mo
   "A probe module with planted violations (regular file: one per category; _test.go file; file and directory named after pool tokens; file name containing 'testdata') is analysed by one fresh process per configuration: grid {flag absent, empty, value} x {env unset, empty, value} per option over pools of boolean and list spellings, joint random combinations and fuzzed environment strings; the visible plants must equal the reference resolution and parse rules, every process must end normally, and in text mode the exit status must be non-zero exactly when something is printed.",
   "boolean FLAG values restricted to what the flag package accepts; GOGREEMENT_ENV_ONLY unset; reference rules written from the property statement", "DESIGN.md §3 C18")
 
+CHECKS["C15"] = ("runtime model comparison: real annotations.ReadAllAnnotations / ignore.ReadIgnoreAnnotations on synthetic files vs hand-written reference recogniser",
+  "Every candidate comment line (8 prefixes x 11 keywords and near-keywords x 4 separators x all argument token sequences of length <=3 quick / <=4 thorough over a 15-token alphabet, about 1.3M / 20M lines, plus fuzzed mutations of valid annotations and 17 attachment sites x 6 keywords) is the doc comment of its own type / func / method / field in a synthetic file handed to the real readers; recognised-or-not and the parsed arguments must equal a character-scanner recogniser written from the statement. Exhaustive inside the token bound, sampled outside.",
+  "trusts go/parser; recogniser and FREE classes (trailing-comma lists, digit-initial names, white space other than space/tab, non-ASCII) as in DESIGN.md", "DESIGN.md §3 C15")
+
 PENDING_REASON = "monitor for this property is still under construction in this round (designed in DESIGN.md §3; not claimed until its check is silent on the unchanged tree)"
 def main():
     checks = []
